@@ -113,7 +113,7 @@ func replayNative(ps *PropertySpec, v *Violation, wpath string, results []*Harne
 
 	ctx, cancel := context.WithTimeout(context.Background(), 240*time.Second)
 	defer cancel()
-	cmd := exec.CommandContext(ctx, "go", "test", "-tags", "verif", "-vet=off", "-count=1", "-overlay", ovPath, "-run", "^TestVerifReplay$", "-v", "./"+spec.Pkg)
+	cmd := exec.CommandContext(ctx, "go", "test", "-tags", "verif", "-vet=off", "-count=1", "-overlay", ovPath, "-run", "^TestVerifReplay$", "-timeout", "60s", "-v", "./"+spec.Pkg)
 	cmd.Dir = repoDir()
 	cmd.Env = append(os.Environ(), "GOFLAGS=", "GOPROXY=off", "GOSUMDB=off", "GOTOOLCHAIN=local", "VERIF_WITNESS="+natPath, "VERIF_HARNESS="+v.Harness)
 	out, _ := cmd.CombinedOutput()
@@ -122,6 +122,11 @@ func replayNative(ps *PropertySpec, v *Violation, wpath string, results []*Harne
 	// command line to repeat the replay by hand
 	os.WriteFile(filepath.Join(dir, base+".replay.sh"), []byte(fmt.Sprintf("#!/bin/sh\ncd %s && VERIF_WITNESS=%s VERIF_HARNESS=%s GOFLAGS= go1.26.8 test -tags verif -vet=off -count=1 -overlay %s -run '^TestVerifReplay$' -v ./%s\n",
 		repoDir(), natPath, v.Harness, ovPath, spec.Pkg)), 0o755)
+	if v.Kind == "hang" {
+		if strings.Contains(s, "all goroutines are asleep") || strings.Contains(s, "test timed out") || ctx.Err() != nil {
+			return "reproduced"
+		}
+	}
 	switch {
 	case strings.Contains(s, "VERIF-ASSUME-FAILED"):
 		return "replay-assume-failed"
